@@ -203,10 +203,16 @@ def rule_driver_reads_failure(ctx, facts, prefix="C08-R3"):
     for (bb, tt, ft) in found:
         region = cfg.reach_t(g, tt)
         rets = [st for (rb, st) in return_values(g) if rb in region]
-        good = bool(rets) and all(is_err_agg(st) for st in rets)
+        from ..common import only_err_returns
+        good = (bool(rets) and all(is_err_agg(st) for st in rets)) or only_err_returns(g, tt)
         ctx.check(good, prefix, "failure-arm", "failure == true reaches only Err returns (%s)" % ", ".join(rv_str(s["rv"]) for s in rets), g.where(bb))
     okrets = [rb for (rb, st) in return_values(g) if is_ok_agg(st)]
-    p = cfg.path_t(g, P.target, okrets, avoid=[bb for (bb, _, _) in found])
+    if not okrets:
+        # the driver returns through a wrapper (`?`, map_err ...): decide on the shape of the returned value instead
+        rs = cfg.return_shapes(g, P.target, avoid=[bb for (bb, _, _) in found])
+        p = [rb for (rb, sh) in rs if sh is None or sh[0] != 1] or None
+    else:
+        p = cfg.path_t(g, P.target, okrets, avoid=[bb for (bb, _, _) in found])
     ctx.check(p is None, prefix, "failure-bypass", "no path from the insertion pass to a success return bypasses the failure test", g.where(P.bb),
               {"bypass_lines": [g.blocks[b]["term"].get("line") for b in (p or [])][:30]})
 
